@@ -6,6 +6,7 @@ import tempfile
 from hypothesis import strategies as st
 
 from ..core import Check, Violation
+from .. import fuzz as _fuzz
 from ..engine import run_cli
 from ..gen import ast as A
 from ..gen import printer as P
@@ -322,4 +323,6 @@ def render_check(case, data, files, ext, err, primary, sources):
 CHECKS = [
     Check("span_manager_roundtrip", check_spans, span_case, quick=400, thorough=15000),
     Check("error_spans_and_rendering", check_failing, failing_case, quick=250, thorough=8000),
+    _fuzz.replay_check(["pipeline"]),
 ]
+FUZZ = [("pipeline", 300_000, 800)]
